@@ -15,7 +15,7 @@ RULE = ('every pair 0 <= n <= m in the stated boxes x item kind (terminal, rule,
 ASSUMPTIONS = ['arithmetic oracle: n <= k <= m', 'bounds limited to the boxes in coverage.bounds (m <= 64 quick; m <= 200 lalr / 120 earley and the axes up to 400 thorough)']
 DEADLINE = {'quick': 900, 'thorough': 3 * 3600}
 
-KINDS = ('term', 'rule', 'group', 'tmpl', 'in-str', 'in-str-prefix', 'in-re-alt', 'in-group-alt')
+KINDS = ('term', 'rule', 'group', 'group-alt', 'tmpl', 'in-str', 'in-str-prefix', 'in-re-alt', 'in-group-alt')
 
 
 def grammar_for(kind, n, m):
@@ -26,6 +26,8 @@ def grammar_for(kind, n, m):
         return 'start: a%s\na: "x"\n' % rep, {}
     if kind == 'group':
         return 'start: ("x" "y")%s\n' % rep, {'keep_all_tokens': True}
+    if kind == 'group-alt':
+        return 'start: (X | Z)%s\nX: "x"\nZ: "z"\n' % rep, {}
     if kind == 'tmpl':
         return 'start: rep{X}\nrep{p}: p%s\nX: "x"\n' % rep, {}
     if kind == 'in-str':
@@ -44,7 +46,7 @@ def text_for(kind, k):
         return 'xy' * k
     if kind == 'in-str-prefix':
         return 'y' + 'x' * k
-    if kind in ('in-re-alt', 'in-group-alt'):
+    if kind in ('in-re-alt', 'in-group-alt', 'group-alt'):
         return ('xz' * k)[:k] if k % 2 else ('zx' * k)[:k]
     return 'x' * k
 
@@ -61,6 +63,8 @@ def expected_tree_ok(kind, k, t):
         return None if ch == tuple(('tree', 'a', ()) for _ in range(k)) else 'children'
     if kind == 'group':
         return None if tuple(x[2] for x in ch) == tuple('xy' * k) else 'children'
+    if kind == 'group-alt':
+        return None if tuple(x[2] for x in ch) == tuple(text_for(kind, k)) else 'children'
     if kind == 'tmpl':
         return None if ch == (('tree', 'rep', tuple(('tok', 'X', 'x') for _ in range(k))),) else 'children'
     want = text_for(kind, k)
@@ -197,7 +201,7 @@ def pairs_for(tier, kind, parser):
             for n in range(m + 1):
                 if parser == 'earley' and kind != 'term' and m % 3:
                     continue
-                if parser == 'earley' and 14 < m < 50 and (m - n) > 6 and kind != 'term':
+                if parser == 'earley' and 14 < m < 50 and (m - n) > 6 and kind != 'term' or (kind == 'group-alt' and 9 < m < 50):
                     continue        # naive expansion: m-n+1 alternatives of up to 49 symbols (slow under Earley)
                 out.append((n, m, parser == 'lalr'))
         for n, m in ((13, 70), (12, 97), (25, 120), (52, 52), (53, 53), (97, 97), (0, 100), (64, 128), (100, 127)):
@@ -208,7 +212,7 @@ def pairs_for(tier, kind, parser):
             for n in range(m + 1):
                 if parser == 'earley' and kind != 'term' and m % 3:
                     continue
-                if parser == 'earley' and 14 < m < 50 and (m - n) > 10 and kind != 'term':
+                if parser == 'earley' and 14 < m < 50 and (m - n) > 10 and kind != 'term' or (kind == 'group-alt' and 11 < m < 50):
                     continue
                 out.append((n, m, parser == 'lalr' and m <= 130))
         for v in range(201, 401, 1 if parser == 'lalr' else 7):
